@@ -130,6 +130,8 @@ assoc_set = z3.RecFunction('assoc_set', VL, V, V, VL)   # dict[k] = v : replace 
 z3.RecAddDefinition(assoc_set, [_l, _x, _y], z3.If(VL.is_nil(_l), VL.cons(V.Pair(_x, _y), VL.nil),
                                                     z3.If(V.fst(VL.hd(_l)) == _x, VL.cons(V.Pair(_x, _y), VL.tl(_l)),
                                                           VL.cons(VL.hd(_l), assoc_set(VL.tl(_l), _x, _y)))))
+index_of = z3.RecFunction('index_of', VL, V, z3.IntSort())   # position of a key in an association list (its length when absent)
+z3.RecAddDefinition(index_of, [_l, _x], z3.If(VL.is_nil(_l), 0, z3.If(V.fst(VL.hd(_l)) == _x, 0, 1 + index_of(VL.tl(_l), _x))))
 keys = z3.RecFunction('keys', VL, VL)
 z3.RecAddDefinition(keys, [_l], z3.If(VL.is_nil(_l), VL.nil, VL.cons(V.fst(VL.hd(_l)), keys(VL.tl(_l)))))
 vals = z3.RecFunction('vals', VL, VL)
@@ -267,6 +269,23 @@ def list_lemmas(terms):
 
 UNFOLD = {}           # rec-function name -> python function building its body: definitional instances made syntactically present
 LEMMA_HOOKS = []      # functions (term, head name) -> ground instances of lemmas proved by induction elsewhere
+
+
+def _index_of_lemmas(e, n):
+    """positions in association lists (each proved by induction in pyvc/listlib.py): a present key sits below the length; dict stores keep the
+    position of every key already present and put a new key at the end"""
+    if n != 'index_of':
+        return []
+    l, key = e.arg(0), e.arg(1)
+    out = [z3.And(e >= 0, e <= length(l)), z3.Implies(lookup(l, key) != V.Missing, e < length(l))]
+    if z3.is_app(l) and l.decl().name() == 'assoc_set':
+        l0, k = l.arg(0), l.arg(1)
+        out.append(z3.Implies(lookup(l0, key) != V.Missing, e == index_of(l0, key)))
+        out.append(z3.Implies(z3.And(index_of(l0, k) == length(l0), key == k), e == length(l0)))      # structurally absent key: appended
+    return out
+
+
+LEMMA_HOOKS.append(_index_of_lemmas)
 
 
 def collect_apps(exprs, names):
